@@ -118,6 +118,15 @@ def find_item(src, impl_pat, kind, name):
         for i in range(len(ct) - 2):
             if ct[i].text == "macro_rules" and ct[i + 1].text == "!" and ct[i + 2].text == name:
                 hits.append(i)
+    if len(hits) > 1:
+        # platform variants: keep the one that is compiled on Linux
+        def off(i):
+            hs = _header_start(ct, i)
+            h = _norm(ct[hs:i])
+            return 'cfg ( windows )' in h or 'cfg ( target_os = "windows" )' in h or 'cfg ( test )' in h
+        live = [i for i in hits if not off(i)]
+        if live:
+            hits = live
     if not hits:
         raise ExtractError(f"item not found: {impl_pat} :: {kind} {name}")
     if len(hits) > 1:
@@ -278,7 +287,9 @@ def rule_R1_attrs(ct, log):
             e = match_close(ct, k)
             body = _norm(ct[k + 1:e])
             m = re.match(r'cfg \( feature = "([a-z0-9_]+)" \)$', body)
-            if m and m.group(1) in DISABLED_FEATURES:
+            if not m and body in ('cfg ( windows )', 'cfg ( target_os = "windows" )', 'cfg ( not ( any ( unix , windows ) ) )'):
+                m = re.match(r'(cfg) ', body)   # platform-gated code that is not compiled on Linux
+            if m and (m.group(1) in DISABLED_FEATURES or m.group(1) == "cfg"):
                 # drop following statement: up to ';' or ',' at depth 0, or a complete {...} block
                 j = e + 1
                 depth = 0
